@@ -21,6 +21,7 @@ func c17(c *Ctx) {
 	p := c.P
 	c.divGuards("div")
 	c.journalValidity("journal-valid")
+	c.rollbackFamily("rollback")
 	c.constIndexGuards("const-index", []string{
 		"litefs.(*JournalReader).Next", "litefs.(*JournalReader).ReadFrame", "litefs.(*WALReader).ReadHeader", "litefs.(*WALReader).ReadFrame", "litefs.readSQLiteDatabaseHeader",
 	}, 30)
